@@ -294,24 +294,49 @@ Definition predict_d (hd : dhandler) (ds : list desc) (td : tail_d) : list desc 
 (* ---- handlers used by the correspondence runs: the reply is a function of the message ---- *)
 (* mode 0 nil, 1 empty non-nil, 2 echo, 3 fixed bytes, 4 by type mod 5 (4 = echo and a handler error),
    5 by type mod 3 without looking at the body *)
+(* bodies and replies built by rule: byte i = (a * i + b) mod 256 *)
+Definition fill_step (a b : N) (p : N * bytes) : N * bytes :=
+  let i := N.pred (fst p) in (i, ((a * i + b) mod 256) :: snd p).
+Definition fill (n a b : N) : bytes := snd (N.iter n (fill_step a b) (n, [])).
+Definition pat_a (fixed : bytes) : N := match fixed with a :: _ => a | [] => 1 end.
+Definition pat_b (fixed : bytes) : N := match fixed with _ :: b :: _ => b | _ => 0 end.
+
+(* mode 6: the request's TYPE is the reply length asked for; the reply is the pattern (a, b) = first two
+   bytes of fixed *)
 Definition mk_handler (mode : N) (fixed : bytes) : handler := fun m =>
-  match mode with
-  | 0 => None
-  | 1 => Some []
-  | 2 => Some (snd m)
-  | 3 => Some fixed
-  | 4 => match fst m mod 5 with
-         | 0 => None | 1 => Some [] | 2 => Some (snd m) | 3 => Some fixed | _ => Some (snd m)
-         end
-  | _ => match fst m mod 3 with 0 => None | 1 => Some [] | _ => Some fixed end
-  end.
+  if mode =? 0 then None
+  else if mode =? 1 then Some []
+  else if mode =? 2 then Some (snd m)
+  else if mode =? 3 then Some fixed
+  else if mode =? 4 then
+    match fst m mod 5 with
+    | 0 => None | 1 => Some [] | 2 => Some (snd m) | 3 => Some fixed | _ => Some (snd m)
+    end
+  else if mode =? 6 then Some (fill (fst m) (pat_a fixed) (pat_b fixed))
+  else match fst m mod 3 with 0 => None | 1 => Some [] | _ => Some fixed end.
 Definition mk_dhandler (mode : N) (fixed : bytes) : dhandler := fun d =>
-  match mode with
-  | 0 => None
-  | 1 => Some []
-  | 3 => Some fixed
-  | _ => match fst d mod 3 with 0 => None | 1 => Some [] | _ => Some fixed end
-  end.
+  if mode =? 0 then None
+  else if mode =? 1 then Some []
+  else if mode =? 3 then Some fixed
+  else if mode =? 6 then Some (fill (fst d) (pat_a fixed) (pat_b fixed))
+  else match fst d mod 3 with 0 => None | 1 => Some [] | _ => Some fixed end.
+
+(* ---- replies too large to spell out: the handler seen through the LENGTH of its reply ---- *)
+Definition lhandler := desc -> option N.
+(* (request type, reply length) of each non-nil reply, in order *)
+Definition reply_descs (hl : lhandler) (ds : list desc) : list desc :=
+  flat_map (fun d => match hl d with Some n => [(fst d, n)] | None => [] end) ds.
+Definition mk_lhandler (mode : N) (fixed_len : N) : lhandler := fun d =>
+  if mode =? 0 then None
+  else if mode =? 1 then Some 0
+  else if mode =? 3 then Some fixed_len
+  else if mode =? 6 then Some (fst d)
+  else match fst d mod 3 with 0 => None | 1 => Some 0 | _ => Some fixed_len end.
+(* delivered descriptors, reply descriptors, bytes after the replies, end class, allocation flag *)
+Definition predict_dl (hl : lhandler) (ds : list desc) (td : tail_d)
+  : list desc * list desc * bytes * N * bool :=
+  (ds, reply_descs hl ds, tail_written_d td, tail_class_d td,
+   forallb (fun d => snd d <=? 2097152) ds && tail_alloc_ok_d td).
 
 (* ================= executable monitors (model-independent) =================
    They look only at the test input and at what the implementation was observed to do, and
@@ -408,3 +433,17 @@ Definition monitor (h : handler) (ms : list msg) (t : tail) (got : list msg) (o 
 Definition monitor_d (hd : dhandler) (ds : list desc) (t : tail) (got : list desc) (bodies_ok : bool)
            (o : observed) : bool :=
   descs_eqb got ds && bodies_ok && monitor_rest (map (fun d => (fst d, hd d)) ds) t o.
+
+(* descriptor form including the replies: frames = (type field, length field) of each frame found in the
+   written bytes, replies_ok = the harness compared every reply body with what the handler returned,
+   left = the bytes after the last reply frame *)
+Definition monitor_dl (hl : lhandler) (ds : list desc) (t : tail) (got : list desc) (bodies_ok : bool)
+           (frames : list desc) (replies_ok : bool) (left : bytes) (closed alloc_ok : bool) : bool :=
+  descs_eqb got ds && bodies_ok
+  && descs_eqb frames (flat_map (fun d => match hl d with Some n => [(fst d, n)] | None => [] end) ds)
+  && replies_ok && closed && alloc_ok
+  && match t with
+     | TBadHeader hdr _ =>
+         if spec_legacy hdr then bytes_eqb left [53; 32; 48; 32; 48; 10; 0; 0; 0; 0] else bytes_eqb left []
+     | _ => bytes_eqb left []
+     end.
